@@ -164,7 +164,11 @@ class LinkReferenceDefinitionHelper:
         is_blank_line = not line_to_parse and not start_index
 
         POGGER.debug(">>original_line>:$:<", original_line)
-        if ParserHelper.tab_character in original_line and not is_blank_line:
+        if (
+            ParserHelper.tab_character in original_line
+            and not is_blank_line
+            and start_index < len(line_to_parse)
+        ):
             POGGER.debug(">>tabified>:$:<", original_line)
 
             first_character_to_parse = line_to_parse[start_index]
